@@ -26,6 +26,7 @@ import (
 	"verif/harness/chipsim"
 	"verif/harness/core"
 	"verif/harness/perso"
+	"verif/harness/sim"
 	"verif/harness/pki"
 )
 
@@ -654,7 +655,7 @@ func C20(c *core.Ctx) {
 	c.MustTLC(core.TLCOpts{Module: "MC_Concurrency", Cfg: "MC_Concurrency_shared.cfg"})
 	c.MustTLC(core.TLCOpts{Module: "MC_Concurrency", Cfg: "MC_Concurrency_indep.cfg", Workers: 2})
 	c.MustTLC(core.TLCOpts{Module: "MC_Concurrency", Cfg: "MC_Concurrency_once.cfg", Workers: 2})
-	for _, bad := range []string{"MC_Concurrency_snapshot.cfg", "MC_Concurrency_nolock.cfg", "MC_Concurrency_sharedctx.cfg"} {
+	for _, bad := range []string{"MC_Concurrency_snapshot.cfg", "MC_Concurrency_nolock.cfg", "MC_Concurrency_sharedctx.cfg", "MC_Concurrency_notifyafter.cfg"} {
 		if r, err := c.TLC(core.TLCOpts{Module: "MC_Concurrency", Cfg: bad, Workers: 2}); err != nil {
 			core.Infra("%v", err)
 		} else if r.OK {
@@ -766,6 +767,9 @@ func C20(c *core.Ctx) {
 	}
 	c.AddTraces(int64(total))
 	c.Extra["forced_schedules"] = total
+
+	// ---- status callbacks of a shared reader.Reader: one block per call (Concurrency.tla CallbacksSerial) ----------------
+	c20CallbackOrder(c, p, pool)
 
 	// ---- part 2: independent verifications sharing one trust store --------------------------------------------------
 	c20Independent(c)
@@ -1260,6 +1264,117 @@ func C20race(c *core.Ctx) {
 			}
 		}()
 	}
+	// (e) independent sessions whose chips refuse the first read size: every one of them walks the fall-back ladder at
+	// the same time (package-level tables must be read-only), and reads what a lone session reads
+	for g := 0; g < 8; g++ {
+		wg.Add(1)
+		go func(g int) {
+			defer wg.Done()
+			rnd := rand.New(rand.NewSource(c.Seed + int64(g)))
+			for r := 0; r < rounds*4; r++ {
+				obj := buildTLV(4, 600+g, false, rnd)
+				chipE, err := chipsim.New(chipsim.Config{MfFiles: map[uint16][]byte{testFid: obj}, Transport: chipsim.Transport{ExtendedLength: true, RejectLeOver: []int{200, 150, 256}[(g+r)%3]}})
+				if err != nil {
+					continue
+				}
+				s := sim.NewPlain(chipE)
+				if g%2 == 1 {
+					_ = s.InstallSM(sim.Suites[g%len(sim.Suites)], rnd, nil)
+					s.Nfc.SetMaxLe(4096)
+				}
+				data, err := s.Nfc.ReadFile(testFid)
+				if err != nil || !bytes.Equal(data, obj) {
+					fail("C20:contended-results", fmt.Sprintf("independent session %d: ReadFile from a chip refusing large reads failed under contention: %v", g, err))
+				}
+				// the lone result: the same chip kind read alone uses the ladder value 256 when the chip accepts it
+				if g%2 == 1 && (g+r)%3 == 2 {
+					big := 0
+					for _, rd := range chipE.Truth().Reads {
+						if rd.Le > big && rd.SW == 0x9000 {
+							big = rd.Le
+						}
+					}
+					if big != 256 {
+						fail("C20:contended-results", fmt.Sprintf("independent session %d: a chip accepting reads of 256 octets was read with at most %d (a lone session uses 256)", g, big))
+					}
+				}
+			}
+		}(g)
+	}
 	wg.Wait()
 	c.Case("contended", true)
+}
+
+// overlapStatus is a host status handler that (a) notices when it is entered while another invocation is still running
+// and (b) holds the LAST callback of a call (FINISHED) for a moment: a blocking hook doubles as a scheduler gate - while
+// it blocks, a call that (wrongly) already owns the reader would deliver its first callback.
+type overlapStatus struct {
+	mu       sync.Mutex
+	inside   int
+	overlaps int
+	stream   []string
+	finished int
+}
+
+func (o *overlapStatus) Status(s reader.Status) {
+	o.mu.Lock()
+	o.inside++
+	if o.inside > 1 {
+		o.overlaps++
+	}
+	o.stream = append(o.stream, fmt.Sprintf("%v", s.Phase))
+	fin := s.Phase == reader.STATUS_PHASE_FINISHED
+	if fin {
+		o.finished++
+	}
+	o.mu.Unlock()
+	if fin {
+		time.Sleep(150 * time.Millisecond)
+	}
+	o.mu.Lock()
+	o.inside--
+	if fin {
+		o.stream = append(o.stream, "finished-returned")
+	}
+	o.mu.Unlock()
+}
+
+// c20CallbackOrder: two goroutines read through ONE reader.Reader; the host's status handler must see the callbacks of
+// one call as one block (as if the calls had been made one after the other): nothing between FINISHED and its return.
+func c20CallbackOrder(c *core.Ctx, p *perso.Passport, pool cms.CertPool) {
+	rounds := core.Pick(c, 3, 10)
+	for r := 0; r < rounds; r++ {
+		chip, _ := p.Chip()
+		gt := newGates()
+		tx := &gateTx{g: gt, chip: chip}
+		st := &overlapStatus{}
+		rd := reader.NewReader(st, iso7816.NewNfcSession(tx), pool)
+		var wg sync.WaitGroup
+		for g := 0; g < 2; g++ {
+			wg.Add(1)
+			go func(g int) {
+				defer wg.Done()
+				name := fmt.Sprintf("cb%d", g)
+				gt.register(name)
+				gt.newCall(name)
+				pw, _ := password.NewPasswordMrz(p.MRZ)
+				_, _, _ = rd.ReadDocument(pw, []byte{0x3B, 0x80}, nil)
+			}(g)
+		}
+		wg.Wait()
+		c.Case(fmt.Sprintf("callback-order/%d", r), true)
+		if st.finished == 0 {
+			core.Infra("C20: callback order: no read on the shared reader.Reader finished (stream %v)", st.stream)
+		}
+		bad := st.overlaps > 0
+		for i, e := range st.stream {
+			if e == fmt.Sprintf("%v", reader.STATUS_PHASE_FINISHED) && (i+1 >= len(st.stream) || st.stream[i+1] != "finished-returned") {
+				bad = true
+			}
+		}
+		if bad {
+			c.Violation("C20:status-callbacks-of-two-calls-interleave", fmt.Sprintf("two ReadDocument calls on one reader.Reader: the status handler was entered %d time(s) while another callback was still running; stream %v", st.overlaps, st.stream), map[string]any{"stream": st.stream})
+			return
+		}
+	}
 }
